@@ -24,6 +24,12 @@ def determinism_gate(binary, n=1500):
                              "--trace-hashes", os.path.join(WORK, "det-%s-b%d.txt" % (name, w)), "--no-minimise"]})
     res = parallel(cmds)
     for rc, out, err in res:
+        if rc < 0:
+            # an execution aborted (a panic that cannot unwind, or the watchdog): that is a
+            # violation, which the search below finds and reports with its scenario - the gate
+            # has nothing to compare for the executions after it
+            log("determinism gate: a worker aborted (rc=%s); left to the search" % rc)
+            return 0
         if rc not in (0, 1):
             harness_error("determinism gate: harness crashed rc=%s %s" % (rc, err.decode(errors="replace")[-2000:]))
     ref = {}
